@@ -125,7 +125,7 @@ def run(run, P):
                 msg = 'and its class test do not lead to RESPONSE_DROP'
             run.violation('R-SUPPRESS-TAB', FUNC, where, 'flag-class-mismatch:%s' % m.group(0).lstrip('_'),
                           'the per-resource multicast flag %s %s: two rows of the suppression table are swapped' % (mn, msg), [])
-    run.require(n >= 3 or run.fixture_mode, 'R-SUPPRESS-TAB: fewer than 3 per-resource suppression flags tested in %s()' % FUNC)
+    run.require_count(n >= 3 or run.fixture_mode, 'R-SUPPRESS-TAB: fewer than 3 per-resource suppression flags tested in %s()' % FUNC)
     # (b)
     vals = list(flags.values())
     distinct = len(set(vals)) == len(vals) and all(v > 0 and v & (v - 1) == 0 for v in vals)
